@@ -106,6 +106,114 @@ def parsePolys? (s : String) : Option (List (List Nat × List Nat × List Nat ×
     | [x, y, z, yaw, d] => do pure ((← parseDots? x), (← parseDots? y), (← parseDots? z), (← parseDots? yaw), (← d.toNat?))
     | _ => none
 
+/-! YAML values on the wire: n | t | f | i<int>; | d<bits>; | s<hex>; | L<n>;<items> | D<n>;<key><value>... -/
+
+def takeUntilSemi (cs : List Char) : Option (String × List Char) :=
+  let pre := cs.takeWhile (· != ';')
+  match cs.drop pre.length with
+  | ';' :: rest => some (String.ofList pre, rest)
+  | _ => none
+
+def strOfHex? (h : String) : Option String :=
+  if h == "" then some "" else (ofHex? h).bind fun b => String.fromUTF8? (ByteArray.mk b.toArray)
+
+mutual
+def parseY : Nat → List Char → Option (Y × List Char)
+  | 0, _ => none
+  | fuel + 1, cs =>
+    match cs with
+    | 'n' :: r => some (.null, r)
+    | 't' :: r => some (.bool true, r)
+    | 'f' :: r => some (.bool false, r)
+    | 'i' :: r => do let (w, r') ← takeUntilSemi r; pure (.int (← w.toInt?), r')
+    | 'd' :: r => do let (w, r') ← takeUntilSemi r; pure (.flt (← w.toNat?), r')
+    | 's' :: r => do let (w, r') ← takeUntilSemi r; pure (.str (← strOfHex? w), r')
+    | 'L' :: r => do
+      let (w, r') ← takeUntilSemi r
+      let (l, r'') ← parseYs fuel (← w.toNat?) r'
+      pure (.list l, r'')
+    | 'D' :: r => do
+      let (w, r') ← takeUntilSemi r
+      let (l, r'') ← parseKVs fuel (← w.toNat?) r'
+      pure (.dict l, r'')
+    | _ => none
+def parseYs : Nat → Nat → List Char → Option (List Y × List Char)
+  | 0, _, _ => none
+  | _ + 1, 0, cs => some ([], cs)
+  | fuel + 1, n + 1, cs => do
+    let (v, r) ← parseY fuel cs
+    let (l, r') ← parseYs fuel n r
+    pure (v :: l, r')
+def parseKVs : Nat → Nat → List Char → Option (List (Key × Y) × List Char)
+  | 0, _, _ => none
+  | _ + 1, 0, cs => some ([], cs)
+  | fuel + 1, n + 1, cs => do
+    let (k, r) ← parseY fuel cs
+    let key ← match k with
+      | .null => some Key.null | .bool b => some (Key.bool b) | .int i => some (Key.int i) | .flt b => some (Key.flt b)
+      | .str s => some (Key.str s) | _ => none
+    let (v, r') ← parseY fuel r
+    let (l, r'') ← parseKVs fuel n r'
+    pure ((key, v) :: l, r'')
+end
+
+def parseY? (s : String) : Option Y :=
+  match parseY (s.length + 2) s.toList with
+  | some (v, []) => some v
+  | _ => none
+
+def hexOfStr (s : String) : String := if s == "" then "" else toHex s.toUTF8.toList
+
+def showKey : Key → String
+  | .null => "n" | .bool true => "t" | .bool false => "f" | .int i => s!"i{i};" | .flt b => s!"d{b};" | .str s => s!"s{hexOfStr s};"
+
+mutual
+def showY : Y → String
+  | .null => "n" | .bool true => "t" | .bool false => "f" | .int i => s!"i{i};" | .flt b => s!"d{b};" | .str s => s!"s{hexOfStr s};"
+  | .list l => s!"L{l.length};" ++ showYs l
+  | .dict l => s!"D{l.length};" ++ showKVs l
+def showYs : List Y → String
+  | [] => ""
+  | v :: r => showY v ++ showYs r
+def showKVs : List (Key × Y) → String
+  | [] => ""
+  | (k, v) :: r => showKey k ++ showY v ++ showKVs r
+end
+
+def showFileErr : FileErr → String
+  | .py e => toString e
+  | .msg m => "msg:" ++ m.replace " " "_"
+
+def showFE {α} (f : α → String) : Except FileErr α → String
+  | .ok a => "ok " ++ f a
+  | .error e => "err " ++ showFileErr e
+
+def geosOfY? : Y → Option (List (Int × FGeo))
+  | .list l => l.mapM fun
+    | .list [.int i, o, r, .bool v] => some (i, ⟨o, r, v⟩)
+    | _ => none
+  | _ => none
+
+def calibsOfY? : Y → Option (List (Int × FCalib))
+  | .list l => l.mapM fun
+    | .list [.int i, .list a, .list b, uid, .bool v] => some (i, ⟨⟨a⟩, ⟨b⟩, uid, v⟩)
+    | _ => none
+  | _ => none
+
+def paramsOfY? : Y → Option (List (String × PState))
+  | .list l => l.mapM fun
+    | .list [.str n, a, b, c] => some (n, ⟨a, b, c⟩)
+    | _ => none
+  | _ => none
+
+def showLhFile (r : List (Key × FGeo) × List (Key × FCalib) × Y) : String :=
+  let g := Y.list (r.1.map fun (k, g) => .list [.dict [(k, .null)], g.origin, g.rotation, .bool g.valid])
+  let c := Y.list (r.2.1.map fun (k, c) => .list [.dict [(k, .null)], .list c.s0.f, .list c.s1.f, c.uid, .bool c.valid])
+  showY (.list [g, c, r.2.2])
+
+def showParams (r : List (Key × PState)) : String :=
+  showY (.list (r.map fun (k, p) => .list [.dict [(k, .null)], p.isStored, p.defaultValue, p.storedValue]))
+
 def step (_ : Unit) (ws : List String) : Unit × String :=
   let r : String :=
     match ws with
@@ -176,6 +284,26 @@ def step (_ : Unit) (ws : List String) : Unit × String :=
     | ["led", ts] =>
       match parseTimings? ts with
       | some ts => showExcept toHex (ledImage ts)
+      | none => "bad-op"
+    | ["yaml_canon", v] =>
+      match parseY? v with
+      | some y => "ok " ++ showY y.canon
+      | none => "bad-op"
+    | ["lh_file_rt", gs, cs, st] =>
+      match (do pure ((← geosOfY? (← parseY? gs)), (← calibsOfY? (← parseY? cs)), (← parseY? st))) with
+      | some (g, c, st) => showFE showLhFile (lhFileRead (lhFileDoc g c st).canon)
+      | none => "bad-op"
+    | ["lh_file_read", v] =>
+      match parseY? v with
+      | some y => showFE showLhFile (lhFileRead y.canon)
+      | none => "bad-op"
+    | ["pf_rt", ps] =>
+      match (do paramsOfY? (← parseY? ps)) with
+      | some ps => showFE showParams (paramFileRead (paramFileDoc ps).canon)
+      | none => "bad-op"
+    | ["pf_read", v] =>
+      match parseY? v with
+      | some y => showFE showParams (paramFileRead y.canon)
       | none => "bad-op"
     | _ => "bad-op"
   ((), r)
